@@ -7,7 +7,10 @@ import RuxModel.Generated.Facts
   setup ops (answer `ok`, everything before the first `adv`/`end`):
     opt cache <cap> | opt mna | opt fallback
     prog <hid> <acts>            acts: `-` or comma list of  P | E<n> | N | A | SP | WP:<k>:<v> | SD:<k>:<v> |
-                                 GD:<k> | ST<n> | W:<hex>
+                                 GD:<k> | ST<n> | W:<hex> | CP
+                                 (`CP`: the handler keeps a `Context.Copy()`. Nothing the request itself or any
+                                 other request can observe depends on it, so it is no step of the model: the
+                                 token is dropped here; the harness checks the kept copy with an oracle)
     use <hids>                   one `Router.Use` call
     group <gid> <prefix> <hids> <usehids>      group middleware (Group argument, then Use inside the group)
     route <rid> <gid|-> <methods> <pattern> <name> <main> <usecalls>   usecalls: `-` or `h.h/h` (one `/` part per Use)
@@ -92,7 +95,7 @@ def parseAct (s : String) : Option Act :=
   else none
 
 def parseActs (s : String) : Option (List Act) :=
-  if s = "-" then some [] else (s.splitOn ",").mapM parseAct
+  if s = "-" then some [] else ((s.splitOn ",").filter (· ≠ "CP")).mapM parseAct
 
 def parseLenCap (s : String) : Option (Nat × Nat) :=
   match s.splitOn ":" with
